@@ -115,6 +115,7 @@ type VC struct {
 	strLitOrder []string
 	warnings    []string
 	safe        bool
+	safeTopOnly bool
 	epochs      int
 	oblNames    map[string]int
 	stack       []*ssa.Function
